@@ -21,6 +21,10 @@ pub struct Session<'t, F: Kind> {
     pub ext: std::collections::BTreeMap<Slot, (i64, u32)>,
     /// number of add_vars calls so far (selects the entry point)
     pub add_calls: u32,
+    /// use add_vars / add_named_vars / add_named_vars_from_map in turn
+    pub rotate_add: bool,
+    /// entry point for the next add_vars call (replay of a recorded call)
+    pub force_via: Option<u32>,
 }
 
 pub type Slot = usize;
@@ -62,6 +66,8 @@ impl<'t, F: Kind + BooleanFunction> Session<'t, F> {
             n: 0,
             dead: false,
             ext: Default::default(),
+            rotate_add: false,
+            force_via: None,
             add_calls: {
                 static SESSIONS: std::sync::atomic::AtomicU32 = std::sync::atomic::AtomicU32::new(0);
                 SESSIONS.fetch_add(1, std::sync::atomic::Ordering::Relaxed) % 3
@@ -78,8 +84,12 @@ impl<'t, F: Kind + BooleanFunction> Session<'t, F> {
         // all three entry points in turn: add_vars, add_named_vars,
         // add_named_vars_from_map (fresh unique names)
         self.add_calls += 1;
-        let via = self.add_calls % 3;
-        debug_assert!(via < 3);
+        // (only for drivers that opted in; the others name variables themselves)
+        let via = match self.force_via.take() {
+            Some(v) => v,
+            None if self.rotate_add => self.add_calls % 3,
+            None => 1,
+        };
         let r = self.mref.with_manager_exclusive(|m| {
             catch(|| {
                 let n0 = m.num_vars();
@@ -345,6 +355,19 @@ impl<'t, F: Kind + BooleanFunction> Session<'t, F> {
             Err(p) => self
                 .out
                 .emit(json!({"ev":"reorder","req":req,"res":{"panic":p}})),
+        }
+    }
+
+    /// DDDMP export of some handles into a buffer: a read-only traversal (it keeps the visited
+    /// edges in an EdgeHashMap); the next snapshot shows whether it left the manager unchanged
+    pub fn export(&mut self, slots: &[Slot], ascii: bool) {
+        self.out.emit(json!({"ev":"begin","what":"export"}));
+        let roots: Vec<&F> = slots.iter().map(|&a| self.get(a)).collect();
+        let r = F::dddmp_export(&self.mref, &roots, ascii);
+        drop(roots);
+        match r {
+            Ok(n) => self.out.emit(json!({"ev":"export","a":slots,"ascii":ascii,"bytes":n})),
+            Err(e) => self.out.emit(json!({"ev":"export","a":slots,"ascii":ascii,"res":{"panic":e}})),
         }
     }
 
